@@ -171,6 +171,7 @@ def _work(item):
             res = fn(X, spec)
             F.detour(X)
             F.morph(X)
+            F.rename(X)  # one node replaced by a node with a new label: same counts, another node set
             F.grow(X)
             uniform = lambda ids: len({type(i) for i in ids}) <= 1  # noqa: E731 - one cast per column must suffice
             if uniform(list(X.nodes)) and uniform(list(X.edges)):
@@ -207,6 +208,7 @@ def family(tier):
             nm = {n: f"a{ch}b{n}" for n in s["nodes"]}
             m = len(s["edges"])
             items.append(("H", F.relabel(s, node_map=nm, edge_ids=[f"e{ch}{ch}{i}" for i in range(m)])))
+    items += [("H", w) for w in F.wide()]  # more than ten nodes and edges
     # single-row / single-column matrices explicitly
     items += [("H", F.H([[1]])), ("H", F.H([[1], [1]])), ("H", F.H([[1, 2, 3]])), ("H", F.H([[1], [1], [1]])),
               ("H", F.H([[1, 2]], nodes=[1, 2, 3]))]
